@@ -95,6 +95,9 @@ func runC11(c *Ctx) {
 	c11Tables(c)
 	c11PerOperationMessage(c)
 	locksReleased(c, pkgTransport)
+	// all connection goroutines end: their sends cannot wait for a reader that is gone (C05)
+	c05TransportGoroutines(c)
+	c05TransportBlocking(c)
 }
 
 func c11InitFirst(c *Ctx) {
@@ -102,6 +105,8 @@ func c11InitFirst(c *Ctx) {
 	for _, call := range c.callsToWs("subscribe") {
 		t := topFn(call.Parent())
 		c.R.Check(t.Name() == "run" && call.Parent() == t, "subscribe/caller:"+t.Name(), c.ipos(call), "called from the read loop only", "subscribe is called from "+shortFn(t)+": an operation can start outside the post-handshake read loop")
+		_, sync := call.(*ssa.Call)
+		c.R.Check(sync, "subscribe/synchronous", c.ipos(call), "the read loop registers the operation before it reads the next frame", "subscribe is started with go/defer: the reader handles the next frame (a stop/complete for the same id) before the operation's cancel function is in `active`, so the stop is lost and the operation runs on unstoppably")
 	}
 	nrun := 0
 	for _, call := range c.callsToWs("run") {
@@ -485,6 +490,37 @@ func c11TerminalFrame(c *Ctx) {
 	if n == 0 {
 		c.R.Note("subscribe/early-error-returns", c.pos(sub.Pos()), "no early complete found")
 	}
+	// every exit of subscribe has either started the operation goroutine or completed the id (directly or through a helper
+	// of the package that completes on all its paths)
+	completes := func(in ssa.Instruction) bool {
+		if in == ssa.Instruction(goInstr) {
+			return true
+		}
+		ci, ok := in.(ssa.CallInstruction)
+		if !ok {
+			return false
+		}
+		if isTerm(ci) == "complete" {
+			return true
+		}
+		if sc := ci.Common().StaticCallee(); sc != nil && sc.Pkg != nil && sc.Pkg.Pkg.Path() == pkgTransport && len(sc.Blocks) > 0 && sc != sub {
+			all := len(an.Returns(sc)) > 0
+			for _, r := range an.Returns(sc) {
+				if !mustPassThrough(sc, r, func(x ssa.Instruction) bool {
+					c2, ok := x.(ssa.CallInstruction)
+					return ok && isTerm(c2) == "complete"
+				}) {
+					all = false
+				}
+			}
+			return all
+		}
+		return false
+	}
+	for i, r := range an.Returns(sub) {
+		c.R.Check(mustPassThrough(sub, r, completes), sprintf("subscribe/exit-terminated#%d", i+1), c.ipos(r), "the id is completed or its goroutine started",
+			"subscribe can return without completing the id and without starting its goroutine: an operation refused with a user-kind error (complexity limit, …) gets a data frame with the error and is never terminated")
+	}
 }
 
 func c11ExitCloses(c *Ctx) {
@@ -726,6 +762,37 @@ func c11Tables(c *Ctx) {
 		cases := intCases(f, isMessageTypeLoad)
 		for _, t := range cts {
 			c.R.Check(cases[t], shortFn(f)+"/case:"+typeName[t], constructed[t], "handled", "the server sends "+typeName[t]+" but "+shortFn(f)+" has no case for it: the frame is turned into an 'invalid message type' error and dropped")
+		}
+	}
+	// the wire type chosen in fromMessage is different for different internal types
+	for _, f := range from {
+		wire := map[string][]ssa.Instruction{}
+		for _, b := range f.Blocks {
+			for _, in := range b.Instrs {
+				st, ok := in.(*ssa.Store)
+				if !ok {
+					continue
+				}
+				fa, ok := st.Addr.(*ssa.FieldAddr)
+				if !ok || fieldNameOf(fa) != "Type" {
+					continue
+				}
+				if s, ok := an.ConstString(st.Val); ok {
+					wire[s] = append(wire[s], in)
+				}
+			}
+		}
+		var ws []string
+		for w := range wire {
+			ws = append(ws, w)
+		}
+		sort.Strings(ws)
+		for _, w := range ws {
+			c.R.Check(len(wire[w]) == 1, shortFn(f)+"/wire:"+w, c.ipos(wire[w][len(wire[w])-1]), "chosen for one internal type only",
+				sprintf("the wire type %q is chosen for %d different internal message types: the client cannot tell them apart (an error frame sent as `next`/`data` does not terminate the operation on the client)", w, len(wire[w])))
+		}
+		if len(ws) < 5 {
+			c.R.Fail("tables: %s assigns only %d wire types", shortFn(f), len(ws))
 		}
 	}
 	// produced by a toMessage
